@@ -501,9 +501,9 @@ func c05(args []string) int {
 		if !keep(sc.ID()) {
 			continue
 		}
-		if f.Tier == "quick" && kinds[sc.Kind] {
-			continue // quick: one scenario per kind; thorough: all
-		}
+		// both tiers use every scenario of the catalogue: the states differ in what they let through (the
+		// nonce-gap history of OLVM was the only one on which an unsigned part of that kind could be replayed)
+		_ = kinds[sc.Kind]
 		h, err := buildHist(sc.ID(), 0)
 		if err != nil {
 			continue
